@@ -85,6 +85,9 @@ Proofs/LBProofs.vos Proofs/LBProofs.vok Proofs/LBProofs.required_vos: Proofs/LBP
 Proofs/FailoverProofs.vo Proofs/FailoverProofs.glob Proofs/FailoverProofs.v.beautified Proofs/FailoverProofs.required_vo: Proofs/FailoverProofs.v Base/Prelude.vo Base/Wrap.vo Base/Bytes.vo Model/Hash.vo Model/Strategy.vo Model/ClientIP.vo Model/Limiter.vo Model/Breaker.vo Model/LB.vo Proofs/StrategyProofs.vo Proofs/LBProofs.vo
 Proofs/FailoverProofs.vio: Proofs/FailoverProofs.v Base/Prelude.vio Base/Wrap.vio Base/Bytes.vio Model/Hash.vio Model/Strategy.vio Model/ClientIP.vio Model/Limiter.vio Model/Breaker.vio Model/LB.vio Proofs/StrategyProofs.vio Proofs/LBProofs.vio
 Proofs/FailoverProofs.vos Proofs/FailoverProofs.vok Proofs/FailoverProofs.required_vos: Proofs/FailoverProofs.v Base/Prelude.vos Base/Wrap.vos Base/Bytes.vos Model/Hash.vos Model/Strategy.vos Model/ClientIP.vos Model/Limiter.vos Model/Breaker.vos Model/LB.vos Proofs/StrategyProofs.vos Proofs/LBProofs.vos
+Proofs/AccountingProofs.vo Proofs/AccountingProofs.glob Proofs/AccountingProofs.v.beautified Proofs/AccountingProofs.required_vo: Proofs/AccountingProofs.v Base/Prelude.vo Base/Wrap.vo Base/Bytes.vo Model/Hash.vo Model/Strategy.vo Model/ClientIP.vo Model/Limiter.vo Model/Breaker.vo Model/LB.vo Proofs/StrategyProofs.vo Proofs/LBProofs.vo Proofs/FailoverProofs.vo
+Proofs/AccountingProofs.vio: Proofs/AccountingProofs.v Base/Prelude.vio Base/Wrap.vio Base/Bytes.vio Model/Hash.vio Model/Strategy.vio Model/ClientIP.vio Model/Limiter.vio Model/Breaker.vio Model/LB.vio Proofs/StrategyProofs.vio Proofs/LBProofs.vio Proofs/FailoverProofs.vio
+Proofs/AccountingProofs.vos Proofs/AccountingProofs.vok Proofs/AccountingProofs.required_vos: Proofs/AccountingProofs.v Base/Prelude.vos Base/Wrap.vos Base/Bytes.vos Model/Hash.vos Model/Strategy.vos Model/ClientIP.vos Model/Limiter.vos Model/Breaker.vos Model/LB.vos Proofs/StrategyProofs.vos Proofs/LBProofs.vos Proofs/FailoverProofs.vos
 Proofs/AdminProofs.vo Proofs/AdminProofs.glob Proofs/AdminProofs.v.beautified Proofs/AdminProofs.required_vo: Proofs/AdminProofs.v Base/Prelude.vo Base/Bytes.vo Model/Strategy.vo Model/LB.vo Model/Admin.vo
 Proofs/AdminProofs.vio: Proofs/AdminProofs.v Base/Prelude.vio Base/Bytes.vio Model/Strategy.vio Model/LB.vio Model/Admin.vio
 Proofs/AdminProofs.vos Proofs/AdminProofs.vok Proofs/AdminProofs.required_vos: Proofs/AdminProofs.v Base/Prelude.vos Base/Bytes.vos Model/Strategy.vos Model/LB.vos Model/Admin.vos
@@ -163,9 +166,9 @@ Props/C06.vos Props/C06.vok Props/C06.required_vos: Props/C06.v Base/Prelude.vos
 Props/C05.vo Props/C05.glob Props/C05.v.beautified Props/C05.required_vo: Props/C05.v Base/Prelude.vo Base/Wrap.vo Model/Hash.vo Model/Strategy.vo Proofs/StrategyProofs.vo
 Props/C05.vio: Props/C05.v Base/Prelude.vio Base/Wrap.vio Model/Hash.vio Model/Strategy.vio Proofs/StrategyProofs.vio
 Props/C05.vos Props/C05.vok Props/C05.required_vos: Props/C05.v Base/Prelude.vos Base/Wrap.vos Model/Hash.vos Model/Strategy.vos Proofs/StrategyProofs.vos
-Props/C13.vo Props/C13.glob Props/C13.v.beautified Props/C13.required_vo: Props/C13.v Base/Prelude.vo Model/Strategy.vo Model/LB.vo Proofs/LBProofs.vo
-Props/C13.vio: Props/C13.v Base/Prelude.vio Model/Strategy.vio Model/LB.vio Proofs/LBProofs.vio
-Props/C13.vos Props/C13.vok Props/C13.required_vos: Props/C13.v Base/Prelude.vos Model/Strategy.vos Model/LB.vos Proofs/LBProofs.vos
+Props/C13.vo Props/C13.glob Props/C13.v.beautified Props/C13.required_vo: Props/C13.v Base/Prelude.vo Model/Strategy.vo Model/LB.vo Proofs/LBProofs.vo Proofs/AccountingProofs.vo
+Props/C13.vio: Props/C13.v Base/Prelude.vio Model/Strategy.vio Model/LB.vio Proofs/LBProofs.vio Proofs/AccountingProofs.vio
+Props/C13.vos Props/C13.vok Props/C13.required_vos: Props/C13.v Base/Prelude.vos Model/Strategy.vos Model/LB.vos Proofs/LBProofs.vos Proofs/AccountingProofs.vos
 Props/C11.vo Props/C11.glob Props/C11.v.beautified Props/C11.required_vo: Props/C11.v Base/Prelude.vo Model/Strategy.vo Model/LB.vo Proofs/LBProofs.vo Model/Conc.vo Proofs/ConcProofs.vo
 Props/C11.vio: Props/C11.v Base/Prelude.vio Model/Strategy.vio Model/LB.vio Proofs/LBProofs.vio Model/Conc.vio Proofs/ConcProofs.vio
 Props/C11.vos Props/C11.vok Props/C11.required_vos: Props/C11.v Base/Prelude.vos Model/Strategy.vos Model/LB.vos Proofs/LBProofs.vos Model/Conc.vos Proofs/ConcProofs.vos
